@@ -73,6 +73,11 @@ CLAIMED["C17"] = ("§3 C17",
     "Decides that closures run concurrently by modload/modpkgload/modrequirements write captured state only under a common mutex (or atomics, per-iteration variables, per-index slice elements), that no map iteration in these packages and in modfile feeds an unsorted order-sensitive sink, that modfile.parse decodes only values validated against the selected #File schema (selected as a maximum), that Format returns only bytes its own parse accepted, and that CheckTidy and Tidy share tidy/tidyOnce/equalRequirements. It does not decide that the fixpoint lists exactly the needed modules.",
     "MVS and registry behaviour trusted")
 
+CLAIMED["C20"] = ("§3 C20",
+    "CFG gates and reachability on cmd/cue's runTrim (diff-before-write, --ignore bypass, dry-run), case-level strong field coverage of the trimmer's dependency walker, cooperating-site agreement",
+    "Narrow: decides that cue trim writes files only after the trimmed package was rebuilt through the overlay and diffed against the original with a non-Identity result aborting (or --ignore), never on --dry-run or after a trim error; that the dependency walker uses every child expression of each node/clause kind it handles; and that both cooperating sites exclude self-dependent comprehension output. It does not decide that trim.Files removes only implied fields nor idempotence; walker cases that are absent are listed for review, not judged.",
+    "diff.Final.Diff is the oracle the command relies on (it compares scalars by kind only, see seeded/C20-a)")
+
 # properties not claimed (yet) -> reason
 NOT_APPLICABLE = {
     "C03": "value-level: the content is the cell values of the bound-simplification decision table over numbers; no shape rule separates a correct table from an off-by-one (DESIGN.md §4)",
